@@ -43,7 +43,7 @@ def flat(s):
 
 
 def has_u(s):
-    return any(x[0] == 'U' or (x[0] == 'SUB' and has_u(x[1])) for x in flat(s))
+    return any(x[0] in ('U', 'ANY') or (x[0] == 'SUB' and has_u(x[1])) for x in flat(s))
 
 
 def _strip_ids(x):
@@ -94,6 +94,7 @@ def show(s):
     if s[0] == 'SORT': return f"sorted({show(s[1])})"
     if s[0] == 'ONE': return '1'
     if s[0] == 'T': return s[1]
+    if s[0] == 'ANY': return '(' + ' + '.join(show(x) for x in s[1]) + ' in some order)'
     if s[0] == 'U': return f"?{s[2] and ':' + s[2]}"
     return str(s)
 
